@@ -400,12 +400,21 @@ class BaseWorklist(list):
         else:
             exclude_str = ""
 
-        src_args = (src_rack_label, 1, volume, "", Tip.Any, src_rack_id, "", src_rack_type, "")
+        for pname, pos in (
+            ("src_start", src_start),
+            ("src_end", src_end),
+            ("dst_start", dst_start),
+            ("dst_end", dst_end),
+        ):
+            if not isinstance(pos, (int, numpy.integer)) or pos < 1:
+                raise ValueError(f"Invalid {pname}: {pos}")
+
+        src_args = (src_rack_label, 1, volume, liquid_class, Tip.Any, src_rack_id, "", src_rack_type, "")
         (
             src_rack_label,
             _,
             _,
-            _,
+            liquid_class,
             _,
             src_rack_id,
             _,
